@@ -247,7 +247,7 @@ META = {
     'required_labels': ['c19.fires-at-expiry', 'c19.args', 'c19.not-overdue'],
     'required_covers': ['nontrivial', 'fired', 'stop', 'restart-pending', 'restart-from-callback', 'two-instances'],
     'bounds': {'quick': '16 scripts: one-shot and auto-restart, <= 2 controller calls, <= 2 callback-issued calls; all instants, timeouts, '
-                        'taus symbolic and unbounded; auto-restart timers: input regions with more than 3 firings are outside the bound',
+                        'taus symbolic and unbounded; auto-restart timers: input regions with more than 3 firings are outside the bound; str / bytes scalar arguments; callbacks returning False / 0 / True; two timers side by side',
                'thorough': '30 scripts, <= 4 controller calls; auto-restart <= 4 firings'},
     'assumptions': ['restart() from outside on a one-shot timer that has already fired is not determined by the statement: after '
                     'it only no-raise and argument equality are asserted',
